@@ -25,6 +25,7 @@ import (
 	"time"
 
 	NoKV "github.com/feichai0017/NoKV"
+	"github.com/feichai0017/NoKV/kv"
 	"github.com/feichai0017/NoKV/utils"
 
 	"verif/harness/hlib"
@@ -57,6 +58,8 @@ func val(r *hlib.Rand) []byte {
 func (e *engine) Gen(r *hlib.Rand, tier string) []string {
 	x := r.Intn(100)
 	switch {
+	case x < 5:
+		return genHighVersion(r)
 	case x < 45:
 		return genSeq(r)
 	case x < 93:
@@ -295,6 +298,38 @@ func genSched(r *hlib.Rand) []string {
 	return ops
 }
 
+// genHighVersion: a store whose recovered version lies beyond the watermark's first window
+// (65536 slots): one entry at version 70000 through SetVersionedEntry, reopen, then the FIRST commit
+// of the session (the one whose Begin makes the window slide) stepped concurrently with a reader.
+func genHighVersion(r *hlib.Rand) []string {
+	ops := []string{"sched", "setv 70000 7a 30", "reopen", "state"}
+	v := hlib.Hex(val(r))
+	ops = append(ops, "begin 1 u", "set 1 61 "+v, "set 1 62 "+v, "spawn 1 commit")
+	// 5 steps park the commit at the loop head of the tryAdvance that follows the publish — after
+	// the point where a dropped count lets the mark pass it, before anything is applied
+	park := 5
+	if r.Chance(50) {
+		park = 1 + r.Intn(6)
+	}
+	for i := 0; i < park; i++ {
+		ops = append(ops, "step 1")
+	}
+	ops = append(ops, "state", "spawn 2 begin r")
+	for i, n := 0, 6+r.Intn(10); i < n; i++ {
+		if r.Chance(70) {
+			ops = append(ops, "step 2")
+		} else {
+			ops = append(ops, "step 1")
+		}
+		if r.Chance(40) {
+			ops = append(ops, "get 2 61", "get 2 62")
+		}
+	}
+	ops = append(ops, "get 2 61", "get 2 62", "scan 2", "drain", "get 2 61", "get 2 62", "scan 2",
+		"begin 3 r", "scan 3", "discard 2", "discard 3", "state")
+	return ops
+}
+
 func genStress(r *hlib.Rand, tier string) []string {
 	iters := 150 + r.Intn(150)
 	if tier == "thorough" {
@@ -477,12 +512,46 @@ func scanTxn(t *NoKV.Txn) string {
 	return strings.Join(parts, ",")
 }
 
+// seen / own implement a model-independent oracle inside the harness: a transaction's answers for
+// a key it has not written itself must never change (that IS C05); a changed answer is marked
+// `!unstable:<key>` so that it matches no alternative of the spec column even when the model's
+// transaction is in a different state (e.g. still blocked) and the spec column says `*`.
 type handle struct {
-	tmp    *NoKV.Txn // set by a scheduled NewTransaction; becomes txn when its return is stepped
-	txn    *NoKV.Txn // nil until NewTransaction returned
+	seen   map[string]string // key (hex) → first answer served by the store ("-" = not found)
+	own    map[string]bool   // keys written by the transaction itself
+	tmp    *NoKV.Txn         // set by a scheduled NewTransaction; becomes txn when its return is stepped
+	txn    *NoKV.Txn         // nil until NewTransaction returned
 	upd    bool
 	writes int
 	closed bool // Commit / Discard called
+}
+
+// stable records the answer for key and returns "" or the `!unstable` mark.
+func (h *handle) stable(key, answer string) string {
+	if h.own[key] {
+		return ""
+	}
+	if h.seen == nil {
+		h.seen = map[string]string{}
+	}
+	if was, ok := h.seen[key]; ok {
+		if was != answer {
+			return "!unstable:" + key
+		}
+		return ""
+	}
+	h.seen[key] = answer
+	return ""
+}
+
+// firstMark keeps one (the smallest) mark so that the output is deterministic.
+func firstMark(marks string) string {
+	if marks == "" {
+		return ""
+	}
+	parts := strings.Split(strings.TrimPrefix(marks, "!"), "!")
+	sort.Strings(parts)
+	return "!" + parts[0]
 }
 
 func (e *engine) Exec(ops []string) (out []string) {
@@ -543,6 +612,25 @@ func (e *engine) Exec(ops []string) (out []string) {
 			return "ok"
 		case f[0] == "state" && len(f) == 1:
 			return stateStr(db)
+		case f[0] == "setv" && len(f) == 4:
+			// one entry at an explicit version through the public plain-write API (no oracle involved);
+			// refused while a transaction is open, like reopen
+			for _, h := range hs {
+				if !h.closed {
+					return "unsafe"
+				}
+			}
+			if sched.live() {
+				return "unsafe"
+			}
+			ver := uint64(id)
+			if ver == 0 {
+				return "bad-op"
+			}
+			if err := db.SetVersionedEntry(kv.CFDefault, hlib.UnHex(f[2]), ver, hlib.UnHex(f[3]), 0); err != nil {
+				return "other:" + strings.ReplaceAll(err.Error(), " ", "_")
+			}
+			return "ok"
 		case f[0] == "reopen" && len(f) == 1:
 			// Close + Open of the same directory; refused while a transaction is still open
 			for _, h := range hs {
@@ -602,15 +690,39 @@ func (e *engine) Exec(ops []string) (out []string) {
 			}
 			item, err := h.txn.Get(hlib.UnHex(f[2]))
 			if err != nil {
+				if errors.Is(err, utils.ErrKeyNotFound) {
+					return errClass(err) + h.stable(f[2], "-")
+				}
 				return errClass(err)
 			}
-			return "val:" + hlib.Hex(item.Entry().Value)
+			v := hlib.Hex(item.Entry().Value)
+			return "val:" + v + h.stable(f[2], "v"+v)
 		case f[0] == "scan" && len(f) == 2:
 			h := active()
 			if h == nil {
 				return "notxn"
 			}
-			return scanTxn(h.txn)
+			res := scanTxn(h.txn)
+			got := map[string]string{}
+			if res != "-" {
+				for _, kvp := range strings.Split(res, ",") {
+					if k, v, ok := strings.Cut(kvp, "="); ok {
+						got[k] = "v" + v
+					}
+				}
+			}
+			mark := ""
+			for k := range h.seen {
+				a, ok := got[k]
+				if !ok {
+					a = "-"
+				}
+				mark += h.stable(k, a)
+			}
+			for k, a := range got {
+				mark += h.stable(k, a)
+			}
+			return res + firstMark(mark)
 		case (f[0] == "set" && len(f) == 4) || (f[0] == "del" && len(f) == 3):
 			h := active()
 			if h == nil {
@@ -628,6 +740,10 @@ func (e *engine) Exec(ops []string) (out []string) {
 			}
 			if err == nil {
 				h.writes++
+				if h.own == nil {
+					h.own = map[string]bool{}
+				}
+				h.own[f[2]] = true
 			}
 			return errClass(err)
 		case (f[0] == "commit" || f[0] == "discard") && len(f) == 2:
